@@ -145,7 +145,7 @@ func TestRepeatGenerated(t *testing.T) {
 			pk.Discard("unbounded-growth")
 			return
 		}
-		c := Case{ProgCase: px.FromGenerated(g), Reps: pk.Scale(6, 24), GoMaxProcs: []int{1, 2, 16}[rapid.IntRange(0, 2).Draw(rt, "gomaxprocs")]}
+		c := Case{ProgCase: px.FromGenerated(g), Reps: pk.Scale(6, 16), GoMaxProcs: []int{1, 2, 16}[rapid.IntRange(0, 2).Draw(rt, "gomaxprocs")]}
 		if g.Feat["obj-lit"] > 0 || g.Feat["lambda"] >= 2 || len(g.Fns) >= 2 {
 			pk.NonTrivial(px.ProgText(c.ProgCase), map[string]any{"program": c.Modules["main"], "reps": c.Reps})
 		}
@@ -351,7 +351,7 @@ func TestTableFixed(t *testing.T) {
 			continue
 		}
 		for _, gmp := range []int{1, 2, 16} {
-			c := Case{ProgCase: px.ProgCase{Modules: fixed[n], Entry: "main", Limits: sb.DefaultLimits(), Note: n}, Reps: pk.Scale(12, 60), GoMaxProcs: gmp}
+			c := Case{ProgCase: px.ProgCase{Modules: fixed[n], Entry: "main", Limits: sb.DefaultLimits(), Note: n}, Reps: pk.Scale(12, 30), GoMaxProcs: gmp}
 			pk.Eval()
 			pk.NonTrivial(n+fmt.Sprint(gmp), map[string]any{"program": n, "reps": c.Reps, "gomaxprocs": gmp})
 			c.WantAccept = !strings.HasPrefix(n, "diagnostics")
